@@ -20,7 +20,7 @@ pub fn def() -> CheckDef {
 fn meta(_ctx: &Ctx) -> Meta {
     Meta {
         level: "exploration",
-        rule: "built packages: seeded file sets (0..n files, every size mod 4 around the padding boundary, 0, 4095..4097, 65535..65537, MiB-sized, compressible and incompressible, names up to 4095 bytes, dirs and symlinks) x every compression type and level in its documented range x standard and forced large-file (stripped cpio) mode, iterated with files() directly and after write+parse: the yielded sequence must equal the configuration ordered by path, each content the configured bytes, each metadata that path's (mode, owner, link target), size and digest matching for regular files. Foreign packages: the asset packages and hand-encoded packages whose archive omits %ghost files / orders entries differently / uses crc magic / stripped entries out of order, judged against an independent decompression + cpio decoding (name -> bytes) and the header's per-path metadata. distinct_nontrivial = distinct (package, mode) iterations fully compared".into(),
+        rule: "built packages: seeded file sets (0..n files, every size mod 4 around the padding boundary, 0, 4095..4097, 65535..65537, MiB-sized, compressible and incompressible, names up to 4095 bytes, dirs and symlinks) x every compression type and level in its documented range x standard and forced large-file (stripped cpio) mode, iterated with files() directly and after write+parse: the yielded sequence must equal the configuration ordered by path, each content the configured bytes, each metadata that path's (mode, owner, link target), size and digest matching for regular files. Foreign packages: the asset packages and hand-encoded packages whose archive omits %ghost files / orders entries differently / uses crc magic / stripped entries out of order, judged against an independent decompression + cpio decoding (name -> bytes) and the header's per-path metadata. Builds of the library with three other cargo feature sets must read back whatever they manage to build. distinct_nontrivial = distinct (package, mode) iterations fully compared".into(),
         assumptions: vec!["large-file mode forced through the verif-hooks feature; codec crates for independent decompression".into()],
         floor_distinct: 50,
     }
@@ -428,6 +428,27 @@ fn run(ctx: &Ctx, rep: &Report) {
     rep.count("hook.payload.stripped_entry_read", rd);
     if wr == 0 || rd == 0 {
         rep.inconclusive("stripped (large-file) cpio entries were not both written and read");
+    }
+    feature_sets(ctx, rep);
+}
+
+/// whatever a build of the library with fewer compressors manages to build, it must read back
+fn feature_sets(ctx: &Ctx, rep: &Report) {
+    let obs = crate::util::probe::observations(ctx, rep);
+    for o in &obs {
+        if o.fields.first().map(|s| s.as_str()) != Some("reread") || o.fields.len() < 3 {
+            continue;
+        }
+        rep.eval(1);
+        rep.count(&format!("feature_set_rereads.{}", o.set), 1);
+        if o.fields[2] != "ok:1" {
+            rep.violation(
+                format!("feature-set-reread:{}", o.fields[1]),
+                format!("built with feature set {}: a package built with compression {} does not give its one file back: {}", o.set, o.fields[1], o.fields[2]),
+                json!({"kind": "feature-probe", "set": o.set, "observation": o.fields.join(" ")}),
+                0,
+            );
+        }
     }
 }
 
